@@ -67,12 +67,15 @@ type LinkOut struct {
 }
 
 type RelSpec struct {
-	Name      string   `json:"name"`
-	Many      bool     `json:"many"`
-	ByDefault bool     `json:"by_default"`
-	Resolve   LinkOut  `json:"resolve"`
-	Add       *LinkOut `json:"add,omitempty"`    // nil = AddMembers not defined
-	Remove    *LinkOut `json:"remove,omitempty"` // nil = RemoveMembers not defined
+	Name      string  `json:"name"`
+	Many      bool    `json:"many"`
+	ByDefault bool    `json:"by_default"`
+	Resolve   LinkOut `json:"resolve"`
+	// Custom: served through sharedLinksResolver (custom_rel.go): a stock resolver wrapped by a custom
+	// RelationshipResolver that adds one additional link from a links map it reuses on every call.
+	Custom bool     `json:"custom,omitempty"`
+	Add    *LinkOut `json:"add,omitempty"`    // nil = AddMembers not defined
+	Remove *LinkOut `json:"remove,omitempty"` // nil = RemoveMembers not defined
 }
 
 type CreateSpec struct {
@@ -198,8 +201,14 @@ func (w *World) build() (*jsonapi.Schema, error) {
 			rt.Relationships = map[string]*jsonapi.RelationshipDefinition[*res]{}
 			for _, rs := range ts.Rels {
 				rs := rs
+				wrap := func(inner jsonapi.RelationshipResolver[*res]) jsonapi.RelationshipResolver[*res] {
+					if rs.Custom {
+						return newSharedLinksResolver(inner, rs.Name)
+					}
+					return inner
+				}
 				if !rs.Many {
-					rt.Relationships[rs.Name] = &jsonapi.RelationshipDefinition[*res]{Resolver: jsonapi.ToOneRelationshipResolver[*res]{
+					rt.Relationships[rs.Name] = &jsonapi.RelationshipDefinition[*res]{Resolver: wrap(jsonapi.ToOneRelationshipResolver[*res]{
 						ResolveByDefault: rs.ByDefault,
 						Resolve: func(ctx context.Context, r *res) (*types.ResourceId, *types.Error) {
 							switch rs.Resolve.Kind {
@@ -210,7 +219,7 @@ func (w *World) build() (*jsonapi.Schema, error) {
 							}
 							return &types.ResourceId{Type: rs.Resolve.Ids[0].Type, Id: rs.Resolve.Ids[0].Id}, nil
 						},
-					}}
+					})}
 					continue
 				}
 				many := jsonapi.ToManyRelationshipResolver[*res]{ResolveByDefault: rs.ByDefault}
@@ -222,7 +231,7 @@ func (w *World) build() (*jsonapi.Schema, error) {
 				if rs.Remove != nil {
 					many.RemoveMembers = manyFunc(*rs.Remove)
 				}
-				rt.Relationships[rs.Name] = &jsonapi.RelationshipDefinition[*res]{Resolver: many}
+				rt.Relationships[rs.Name] = &jsonapi.RelationshipDefinition[*res]{Resolver: wrap(many)}
 			}
 		}
 		if ts.Get.Defined {
